@@ -15,7 +15,7 @@ C03 (functions, casts, EXTRACT, array subscripts) — the clause "… and functi
 
 A. **One calendar** (`Lemmas/CivilAgree.lean`): the evaluator's Hinnant-style `CivilE` and the extraction model's
    table-driven `Civil` are the same function on every valid date / every day number of chrono's range. Consequences:
-   `make_timestamp_iff`, `extract_after_make_timestamp`, `extracted_timestamp_is_make_timestamp`,
+   `make_timestamp_iff`, `make_timestamp_type_error`, `extract_after_make_timestamp`, `extracted_timestamp_is_make_timestamp`,
    `date_trunc_calendar`, `date_trunc_sub_day`, `date_trunc_idempotent`, `date_trunc_unknown_part`.
 B. **Numeric**: `least_is_lower_bound`, `greatest_is_upper_bound`, `least_greatest_null`,
    `least_greatest_type_error`, `abs_int`, `pow_int` / `pow_int_iff`.
@@ -122,6 +122,21 @@ theorem extract_type_error (v : Value) (h : v.valueType ≠ some .timestamp) :
     callFunction O .day [v] = .error .undefinedFunction ∧ callFunction O .hour [v] = .error .undefinedFunction ∧
     callFunction O .minute [v] = .error .undefinedFunction ∧ callFunction O .second [v] = .error .undefinedFunction := by
   cases v <;> simp only [Value.valueType, ne_eq, not_true_eq_false] at h <;> exact ⟨rfl, rfl, rfl, rfl, rfl, rfl⟩
+
+/-- is the value an INT -/
+def isInt : Value → Bool
+  | .int _ => true
+  | _ => false
+
+/-- a part of `make_timestamp` that is not an INT (NULL included) is an error, whatever the other parts are -/
+theorem make_timestamp_type_error (a b c d e f g x : Value)
+    (h : (isInt a && isInt b && isInt c && isInt d && isInt e && isInt f && isInt g) = false) :
+    callFunction O .makeTimestamp [a, b, c, d, e, f, g, x] = .error .undefinedFunction := by
+  cases a <;> (try rfl) <;> cases b <;> (try rfl) <;> cases c <;> (try rfl) <;> cases d <;> (try rfl) <;>
+    cases e <;> (try rfl) <;> cases f <;> (try rfl) <;> cases g <;> (try rfl)
+  simp [isInt] at h
+
+example : (isInt (.int 2024) && isInt .null && isInt (.int 1) && isInt (.int 0) && isInt (.int 0) && isInt (.int 0) && isInt (.int 0)) = false := rfl
 
 /-- a TIMESTAMP made by extraction from a line (`Lit.mkTimestamp`, the function C01's theorems are about) and one made
 by `make_timestamp` in a query from the same parts are the same value -/
